@@ -31,6 +31,8 @@ func init() {
 		Doc: "as straddle, with the reader of stream #1 stalled so that the early send blocks inside its write while the stream is replaced"})
 	RegisterScenario(&Scenario{Name: "c11/straddle-roots", Run: func(p []int, m []vsched.ChoicePoint) explore.Outcome { return c11Run(p, "straddle-roots") },
 		Doc: "GET#1 registered; GET#2 handler || an early ListRoots (abandoned once GET#2 is up) || the client drops stream #1; afterwards stream #2 must be open, registered and reachable"})
+	RegisterScenario(&Scenario{Name: "c11/client-reopen", Run: func(p []int, m []vsched.ChoicePoint) explore.Outcome { return c11ClientReopen(p) },
+		Doc: "library client: stream #1's reader is inside a slow notification handler; Close; Initialize again; the handler returns; later sends must reach the client"})
 	RegisterScenario(&Scenario{Name: "c11/triple", Run: func(p []int, m []vsched.ChoicePoint) explore.Outcome { return c11Run(p, "triple") },
 		Doc: "GET#1 registered; GET#2 || GET#3 opened concurrently; sends at quiescence must reach the surviving stream"})
 	RegisterCheck("C11", func(c *Ctx) {
@@ -44,8 +46,94 @@ func init() {
 		c.DFSBoth("c11/triple", explore.Bounds{Preempt: c.Pick(3, 5), Dev: 1}, 1)
 		c.DFSBoth("c11/straddle", explore.Bounds{Preempt: c.Pick(3, 5), Dev: 1}, 1)
 		c.DFSBoth("c11/straddle-stalled", explore.Bounds{Preempt: c.Pick(3, 5), Dev: 1}, 1)
+		c.DFS("c11/client-reopen", explore.Bounds{Preempt: c.Pick(2, 3), Dev: 0, POR: true, MaxExec: c.Pick(3000, 100000)})
 		c.DFSBoth("c11/straddle-roots", explore.Bounds{Preempt: c.Pick(3, 4), Dev: 1, MaxExec: c.Pick(8000, 300000)}, 1)
 	})
+}
+
+// c11ClientReopen: the library's own client re-opens its listening stream (Close, then Initialize
+// again) while the reader goroutine of its first stream is still inside a slow notification
+// handler. When that goroutine finally unwinds, it must remove only itself: what the server sends
+// to the session afterwards still arrives.
+func c11ClientReopen(prefix []int) explore.Outcome {
+	var viol []explore.Violation
+	obs := &hx.Log{}
+	res := vsched.Run(cfgFor(prefix), func() {
+		vsched.SetBranching(false)
+		r := NewRig("ss")
+		r.Start()
+		cl, err := r.Connect(mcp.WithClientGetSSEEnabled(true))
+		if err != nil {
+			viol = append(viol, V("setup-handshake-fails", "setting the scenario up with well-behaved peers fails: %v", err))
+			return
+		}
+		gate, entered := &hx.Flag{}, &hx.Flag{}
+		got := &hx.Log{}
+		cl.RegisterNotificationHandler("notifications/slow", func(n *mcp.JSONRPCNotification) error {
+			entered.Set()
+			gate.Wait("slow notification handler on stream #1")
+			return nil
+		})
+		sc := cl.(mcp.SessionClient)
+		vsched.Quiesce()
+		sid := sc.GetSessionID()
+		if err := r.Server.SendNotification(sid, "notifications/slow", map[string]interface{}{}); err != nil {
+			viol = append(viol, V("client-reopen:first-stream", "the client's first listening stream is not up: %v", err))
+			return
+		}
+		vsched.Quiesce()
+		if !entered.Get() {
+			viol = append(viol, V("client-reopen:first-stream", "the slow handler was never entered"))
+			return
+		}
+		closed := &hx.Flag{}
+		vsched.Go("close", func() { cl.Close(); closed.Set() })
+		vsched.Quiesce()
+		if !closed.Get() {
+			viol = append(viol, V("client-reopen:close-hangs", "Close did not return while a notification handler is running; blocked: %v", vsched.LiveThreads()))
+			return
+		}
+		// (Close forgets the registered handlers: the handler for the second life is registered now)
+		cl.RegisterNotificationHandler("notifications/seq", func(n *mcp.JSONRPCNotification) error {
+			got.Add("%v", n.Params.AdditionalFields["n"])
+			return nil
+		})
+		var ierr error
+		idone := &hx.Flag{}
+		vsched.Go("init2", func() { _, ierr = cl.Initialize(context.Background(), &mcp.InitializeRequest{}); idone.Set() })
+		vsched.Quiesce()
+		if !idone.Get() || ierr != nil {
+			viol = append(viol, V("client-reopen:second-handshake", "Initialize after Close: done=%v err=%v", idone.Get(), ierr))
+			return
+		}
+		sid2 := sc.GetSessionID()
+		if err := r.Server.SendNotification(sid2, "notifications/seq", map[string]interface{}{"n": "warmup"}); err != nil {
+			viol = append(viol, V("client-reopen:second-stream", "the client's second listening stream is not up: %v", err))
+			return
+		}
+		vsched.Quiesce()
+		vsched.SetBranching(true)
+		gate.Set() // the first stream's goroutine unwinds now
+		vsched.Quiesce()
+		for i := 0; i < 2; i++ {
+			if err := r.Server.SendNotification(sid2, "notifications/seq", map[string]interface{}{"n": i}); err != nil {
+				viol = append(viol, V("client-reopen:send-fails", "after the first stream's goroutine unwound, SendNotification to the session fails: %v", err))
+				break
+			}
+			vsched.Quiesce()
+		}
+		if items := strings.Join(got.Items(), ","); items != "warmup,0,1" && len(viol) == 0 {
+			viol = append(viol, V("client-reopen:delivery", "the client's handler received [%s], sent warmup,0,1", items))
+		}
+		gets := ""
+		for _, x := range r.Fab.Log() {
+			if x.Method == "GET" {
+				gets += fmt.Sprintf("[GET st=%d done=%v gone=%v frames=%d]", x.Status, x.HandlerDone, x.ClientGone, len(hx.DataFrames(x.Body())))
+			}
+		}
+		obs.Add("same-session=%v got=%v %s", sid == sid2, got.Items(), gets)
+	})
+	return finishOutcome(res, obs, viol, true)
 }
 
 func findNote(frames []string, n int) int {
